@@ -10,7 +10,15 @@
 //	TestReplay           re-runs a stored case
 //
 // Reference model (independent of pint's range code): per series, maximal runs of consecutive present
-// grid points  ->  [first, last + step - 1s].  Grid = {g0 + n*step <= max end}, g0 = smallest requested start.
+// grid points  ->  [first, last + step - 1s].  Grid = {g0 + n*step}, g0 = smallest requested start (the grid PHASE is
+// read off the request log), restricted to start <= t <= end: that is what one unsliced evaluation of [start,end]
+// on that grid sees. The model is clipped, pint's output is not.
+//
+// Known finding C13-K1 (class "range-before-requested-start"): pint's first slice starts on the 2h slice grid, up
+// to one slice before `start`, and samples found there stay in the result. judge() compares twice - as is, then with
+// the pre-start part cut off pint's output; only a case whose sole disagreement is pre-start presence (and whose
+// bitmap has a sample on a requested grid point before start) is routed to the known finding, anything else that
+// differs in the same case is still a violation.
 package c13
 
 import (
@@ -97,11 +105,12 @@ func reference(c Case, srv *fakeprom.BitmapServer, reqs []fakeprom.RangeRequest)
 				r.Start, (r.Start-g0)%c.Step, g0, c.Step)
 		}
 	}
+	// the unsliced evaluation of [start, end] has the slices' grid PHASE but only the points start <= t <= end
 	out := map[string][]span{}
 	for i, s := range c.Series {
 		key := lblString(s.Labels)
 		var cur *span
-		for t := g0; t <= maxEnd; t += c.Step {
+		for t := firstGridPoint(g0, c.Start, c.Step); t <= min(maxEnd, c.End); t += c.Step {
 			if srv.Present(i, t) {
 				if cur == nil {
 					cur = &span{S: t}
@@ -117,6 +126,78 @@ func reference(c Case, srv *fakeprom.BitmapServer, reqs []fakeprom.RangeRequest)
 		}
 	}
 	return out, nil
+}
+
+// firstGridPoint is the smallest point of the grid {g0 + n*step} that is >= start.
+func firstGridPoint(g0, start, step int64) int64 {
+	if g0 >= start {
+		return g0
+	}
+	return g0 + (start-g0+step-1)/step*step
+}
+
+func gridOrigin(reqs []fakeprom.RangeRequest) int64 {
+	g0 := reqs[0].Start
+	for _, r := range reqs {
+		g0 = min(g0, r.Start)
+	}
+	return g0
+}
+
+// Known-finding class "range-before-requested-start" (C13-K1), decided from the case and the request log only:
+// some series has a sample on a requested grid point that lies before `start`.
+const classBeforeStart = "range-before-requested-start"
+
+func presentBeforeStart(c Case, srv *fakeprom.BitmapServer, reqs []fakeprom.RangeRequest) bool {
+	if len(reqs) == 0 {
+		return false
+	}
+	g0 := gridOrigin(reqs)
+	for i := range c.Series {
+		for t := g0; t < c.Start; t += c.Step {
+			if srv.Present(i, t) {
+				return true
+			}
+		}
+	}
+	return false
+}
+
+// errBeforeStart marks a failure whose ONLY disagreement with the unsliced evaluation is presence reported on
+// grid points before `start` (established by comparing again after cutting that part off pint's output).
+var errBeforeStart = errors.New("presence reported before the requested start")
+
+// cutBefore removes from pint's ranges everything that stems from grid points before gs (the first grid point
+// >= start): ranges ending before gs disappear, a range straddling gs starts at gs.
+func cutBefore(got map[string][]span, gs int64) map[string][]span {
+	out := map[string][]span{}
+	for k, ss := range got {
+		for _, x := range ss {
+			if x.E < gs {
+				continue
+			}
+			if x.S < gs {
+				x.S = gs
+			}
+			out[k] = append(out[k], x)
+		}
+	}
+	return out
+}
+
+// judge compares pint's ranges with the reference in two steps: as they are, and - if that fails - once more
+// with the pre-start part cut off, so that any other disagreement in the same case still surfaces as itself.
+func judge(c Case, want, got map[string][]span, reqs []fakeprom.RangeRequest) error {
+	first := compare(want, got)
+	if first == nil {
+		return nil
+	}
+	gs := firstGridPoint(gridOrigin(reqs), c.Start, c.Step)
+	if second := compare(want, cutBefore(got, gs)); second != nil {
+		return second
+	}
+	return fmt.Errorf("%w (first slice was requested from %s, start is %s; nothing else differs): %v", errBeforeStart,
+		time.Unix(gridOrigin(reqs), 0).UTC().Format(time.RFC3339), time.Unix(c.Start, 0).UTC().Format(time.RFC3339), first)
 }
 
 func spansOf(r promapi.MetricTimeRanges) map[string][]span {
@@ -188,8 +269,9 @@ func compare(want, got map[string][]span) error {
 // classification from the request log (never from a model of pint's slicing)
 
 type shape struct {
-	slices    int
-	relations map[string]bool
+	slices      int
+	relations   map[string]bool
+	beforeStart bool // structural predicate of C13-K1 holds for this case
 }
 
 func slicesOf(reqs []fakeprom.RangeRequest) []fakeprom.RangeRequest {
@@ -208,7 +290,7 @@ func slicesOf(reqs []fakeprom.RangeRequest) []fakeprom.RangeRequest {
 
 func classify(c Case, srv *fakeprom.BitmapServer, reqs []fakeprom.RangeRequest) shape {
 	sl := slicesOf(reqs)
-	sh := shape{slices: len(sl), relations: map[string]bool{}}
+	sh := shape{slices: len(sl), relations: map[string]bool{}, beforeStart: presentBeforeStart(c, srv, reqs)}
 	for k := 0; k+1 < len(sl); k++ {
 		p := sl[k].Start + (sl[k].End-sl[k].Start)/c.Step*c.Step // last grid point of slice k
 		q := sl[k+1].Start
@@ -262,7 +344,11 @@ func (sh shape) class(c Case) (string, bool) {
 		}
 	}
 	nt := sh.slices >= 2 && len(rel) > 0
-	return fmt.Sprintf("%s:%s:%s:slices=%s:%s", c.Kind, align, div, bucket(sh.slices), strings.Join(rel, "+")), nt
+	pre := ""
+	if sh.beforeStart {
+		pre = ":prestart"
+	}
+	return fmt.Sprintf("%s:%s:%s:slices=%s:%s%s", c.Kind, align, div, bucket(sh.slices), strings.Join(rel, "+"), pre), nt
 }
 
 // ---------------------------------------------------------------------------
@@ -394,7 +480,7 @@ func checkHTTP(c Case) (sh shape, err error) {
 	if err != nil {
 		return sh, err
 	}
-	if err := compare(want, spansOf(res.ranges)); err != nil {
+	if err := judge(c, want, spansOf(res.ranges), res.reqs); err != nil {
 		return sh, fmt.Errorf("start=%d end=%d step=%ds, %d slice(s): %w", c.Start, c.End, c.Step, sh.slices, err)
 	}
 	return sh, nil
@@ -460,7 +546,10 @@ func checkMerge(c Case) (sh shape, err error) {
 		if pan != nil {
 			return sh, fmt.Errorf("MergeRanges panicked: %v", pan)
 		}
-		if err := compare(want, spansOf(all)); err != nil {
+		// MergeRanges knows nothing about the requested window: whether presence before `start` survives is decided
+		// in RangeQuery (C13-K1, judged by the HTTP layer); here that part is cut off before comparing
+		gs := firstGridPoint(gridOrigin(res.reqs), c.Start, c.Step)
+		if err := compare(want, cutBefore(spansOf(all), gs)); err != nil {
 			return sh, fmt.Errorf("start=%d end=%d step=%ds, %d slice(s), arrival order #%d %v: %w", c.Start, c.End, c.Step, len(sl), pi, order, err)
 		}
 	}
@@ -626,7 +715,15 @@ func genCase(t *rapid.T, kind string) Case {
 // ---------------------------------------------------------------------------
 // properties
 
-func knownClass(c Case) string { return "" }
+// knownClass names the listed structural class a failing case falls into ("" = none): the case must satisfy the
+// class predicate (a sample on a requested grid point before start) AND the failure must consist of nothing but
+// presence reported before start (errBeforeStart is only produced by judge's second comparison, never from text).
+func knownClass(sh shape, err error) string {
+	if sh.beforeStart && errors.Is(err, errBeforeStart) {
+		return classBeforeStart
+	}
+	return ""
+}
 
 var wsRe = regexp.MustCompile(`\s+`)
 
@@ -665,7 +762,7 @@ func drive(t *testing.T, kind string) {
 			rec.Count("slice_count_differs_from_scheduler_prediction", 1)
 		}
 		if err != nil {
-			if id, ok := known[knownClass(c)]; ok {
+			if id, ok := known[knownClass(sh, err)]; ok {
 				rec.KnownHit(id, c)
 				return
 			}
